@@ -27,7 +27,7 @@ import (
 type Scenario struct {
 	Seed   int64  `json:"seed"`
 	Idx    int    `json:"idx"`
-	Damage string `json:"damage"` // rowscount | pk-out-of-range
+	Damage string `json:"damage"` // rowscount | pk-out-of-range | keyed-then-keyless (two damaged commits on one branch)
 	Rows   int    `json:"rows"`
 	KeyPos int    `json:"keypos"`
 }
@@ -70,13 +70,51 @@ func Replay(i int, raw []byte) child.Result {
 	if err := ref.CommitHead(rs, "main", csum, com, nil); err != nil {
 		return child.Inconclusive(err)
 	}
+	// keyed-then-keyless: a SECOND, newer commit on the branch whose table has no usable key (rows that agree in
+	// the older table's key column but are different rows): one Resolve re-ingests both, the older with its key,
+	// the newer without one
+	var before2 [][][]string
+	var sum2 []byte
+	if sc.Damage == "keyed-then-keyless" {
+		rows2 := [][]string{cols}
+		for j := 0; j < sc.Rows+3; j++ {
+			r := []string{fmt.Sprintf("p%d", j), fmt.Sprintf("q%d", j%3), fmt.Sprintf("r%d", j%2)}
+			r[sc.KeyPos%3] = fmt.Sprintf("%06d", j%4)
+			rows2 = append(rows2, r)
+		}
+		if sum2, err = tbl.Ingest(db, tbl.CSV(rows2, 0), nil, tbl.IngestOpts{}); err != nil {
+			return child.Inconclusive(err)
+		}
+		if _, before2, err = tbl.Read(db, sum2); err != nil {
+			return child.Inconclusive(err)
+		}
+		csum2, com2, err := tbl.SaveCommit(db, sum2, [][]byte{csum}, "c2", time.Unix(1600000100, 0))
+		if err != nil {
+			return child.Inconclusive(err)
+		}
+		if err := ref.CommitHead(rs, "main", csum2, com2, nil); err != nil {
+			return child.Inconclusive(err)
+		}
+		t2, err := objects.GetTable(db, sum2)
+		if err != nil {
+			return child.Inconclusive(err)
+		}
+		t2.PK = []uint32{uint32(len(cols) + 2)}
+		buf2 := bytes.NewBuffer(nil)
+		if _, err := t2.WriteTo(buf2); err != nil {
+			return child.Inconclusive(err)
+		}
+		if err := db.Set(append([]byte("tbl/"), sum2...), buf2.Bytes()); err != nil {
+			return child.Inconclusive(err)
+		}
+	}
 	// damage the stored table object in place (its key no longer matches its content: a corrupted store)
 	t, err := objects.GetTable(db, sum)
 	if err != nil {
 		return child.Inconclusive(err)
 	}
 	switch sc.Damage {
-	case "rowscount":
+	case "rowscount", "keyed-then-keyless":
 		// a wrong count that keeps the number of blocks (otherwise the table is unreadable and
 		// the doctor's resolution is to remove the commit, which is not a re-ingest)
 		if t.RowsCount%255 == 0 {
@@ -135,6 +173,26 @@ func Replay(i int, raw []byte) child.Result {
 		}
 		sort.Strings(out)
 		return out
+	}
+	if sc.Damage == "keyed-then-keyless" {
+		// the head is the newer commit: its rows are the key-less table's; its parent carries the older table
+		f2a, f2b := flat(after), flat(before2)
+		if strings.Join(f2a, "\x01") != strings.Join(f2b, "\x01") {
+			return child.Fail("doctor/rows-changed/second-table", map[string]interface{}{"before": len(f2b), "after": len(f2a)})
+		}
+		if len(nc.Parents) != 1 {
+			return child.Fail("doctor/parents-changed", map[string]interface{}{"parents": len(nc.Parents)})
+		}
+		pc, err := objects.GetCommit(db, nc.Parents[0])
+		if err != nil {
+			return child.Fail("doctor/parent-unreadable", map[string]interface{}{"error": err.Error()})
+		}
+		o1 := tbl.Observe(db, pc.Table, "doctor")
+		o1.Src = string(raw)
+		child.Emit(o1)
+		if _, after, err = tbl.Read(db, pc.Table); err != nil {
+			return child.Fail("doctor/reingested-table-unreadable", map[string]interface{}{"error": err.Error()})
+		}
 	}
 	fa, fb := flat(after), flat(before)
 	if len(fa) != len(fb) {
